@@ -1111,6 +1111,7 @@ class ChunkRules:
         self.exports += 1
         this = st.mem.get(fr.this)
         idx = this[2][0] if this and this[0] == 'p' and this[2] else None
+        st.comps[('exported', idx)] = True
         now = I.load(st, (BUFS, (idx, self.A.Bq + '::now')))
         total = I.load(st, (BUFS, (idx, self.A.Bq + '::total')))
         r = rng(size, st.sym)
@@ -1146,9 +1147,22 @@ class ChunkRules:
         if fn is not None and fn.get('ctor'):
             return
         ns = setof(val)
+        E = self.A.enum
+        # R03.f: a buffer whose token may be UPDATING holds processed blocks that nobody has written out yet: the I/O role
+        # changes that token only after exporting that buffer in the same turn (otherwise the chunk is dropped)
+        idx_ = loc[1][0] if len(loc[1]) >= 2 else None
+        pre_ = I.load(st, loc)
+        ps_ = setof(pre_) if pre_ is not None and pre_ != TOP else None
+        may_upd = ps_ is None or E['UPDATING'] in ps_
+        if may_upd and idx_ is not None:
+            done_ = bool(st.comps.get(('exported', idx_)))
+            self.rec.ob('R03.f', 'R03.f@%s::processed-buffer-exported-before-reuse' % fkey(fn if fn else self.A.io), done_, nloc(node),
+                        '%s: the token of slot %s is overwritten while it may be UPDATING (processed blocks waiting to be written out) %s' % (
+                            self.mode, show(C(idx_) if isinstance(idx_, int) else idx_), 'after the buffer was exported in this turn' if done_ else 'WITHOUT exporting the buffer first: the chunk is dropped'),
+                        path=[str(x) for x in st.trace[-8:]])
+        st.comps.pop(('exported', idx_), None)
         last = st.comps.pop('lastload', None)
         st.comps['handclass'] = last
-        E = self.A.enum
         if ns is not None and ns == {E['READY']}:
             ok = last is not None and last <= {'FULL', 'FINAL'}
             why = 'token set READY after load result %s' % (sorted(last) if last else 'none (no load in this turn)')
